@@ -1,2 +1,232 @@
-//! Placeholder: re-exports rayon; the simulator-owned bridge is added with C19.
+//! sim-rayon: re-exports the real rayon wholesale and shadows exactly one item,
+//! `iter::plumbing::bridge_unindexed`, with a bridge the simulator owns (seam S7).
+//!
+//! hashbrown's `drive_unindexed` implementations hand their real producers and the real rayon
+//! consumer to this bridge. The bridge builds the split tree from a recorded decision list: at
+//! every step it picks one pending subtree (any order = any steal/worker order) and decides whether
+//! that node splits or is folded to completion. No threads are involved, so a decision list is an
+//! exactly repeatable schedule. A leaf that panics is handled as rayon's `join` does: all other
+//! pending subtrees still run, then the first payload is resumed.
+
 pub use rayon_real::*;
+
+pub mod sim {
+    use std::sync::Mutex;
+
+    #[derive(Default, Debug, Clone)]
+    pub struct Stats {
+        pub bridges: u64,
+        pub splits: u64,
+        pub leaves: u64,
+        pub max_depth: u32,
+        pub out_of_order: u64,
+        pub full_at_node: u64,
+        pub leaf_panics: u64,
+        pub decisions_used: u64,
+        /// digest of the split-tree shape and leaf execution order
+        pub shape: u64,
+    }
+
+    pub struct Sched {
+        pub enabled: bool,
+        pub decisions: Vec<u64>,
+        pub pos: usize,
+        /// 0: every node decides freely; n > 0: rayon-like split budget of a pool with n threads
+        pub pool: u32,
+        pub stats: Stats,
+    }
+
+    pub static SCHED: Mutex<Sched> = Mutex::new(Sched { enabled: false, decisions: Vec::new(), pos: 0, pool: 0, stats: Stats { bridges: 0, splits: 0, leaves: 0, max_depth: 0, out_of_order: 0, full_at_node: 0, leaf_panics: 0, decisions_used: 0, shape: 0 } });
+
+    fn lock() -> std::sync::MutexGuard<'static, Sched> {
+        SCHED.lock().unwrap_or_else(|e| e.into_inner())
+    }
+
+    /// Installs a schedule: every `bridge_unindexed` from now on is driven by `decisions`.
+    pub fn install(decisions: Vec<u64>, pool: u32) {
+        let mut s = lock();
+        s.enabled = true;
+        s.decisions = decisions;
+        s.pos = 0;
+        s.pool = pool;
+        s.stats = Stats::default();
+    }
+
+    /// Removes the schedule (the real rayon bridge is used again) and returns what happened.
+    pub fn uninstall() -> Stats {
+        let mut s = lock();
+        s.enabled = false;
+        s.decisions.clear();
+        std::mem::take(&mut s.stats)
+    }
+
+    pub fn enabled() -> bool {
+        lock().enabled
+    }
+
+    pub(crate) fn pool() -> u32 {
+        lock().pool
+    }
+
+    /// Next decision in 0..n (0 when the list is exhausted).
+    pub(crate) fn decide(n: usize) -> usize {
+        let mut s = lock();
+        let d = s.decisions.get(s.pos).copied().unwrap_or(0);
+        s.pos += 1;
+        s.stats.decisions_used += 1;
+        if n == 0 {
+            0
+        } else {
+            (d % n as u64) as usize
+        }
+    }
+
+    pub(crate) fn note(f: impl FnOnce(&mut Stats)) {
+        f(&mut lock().stats)
+    }
+}
+
+pub mod iter {
+    pub use rayon_real::iter::*;
+
+    pub mod plumbing {
+        pub use rayon_real::iter::plumbing::*;
+        use std::panic::{catch_unwind, resume_unwind, AssertUnwindSafe};
+
+        enum Node<P, C, R, Rd> {
+            Pending(P, C, u32, u32),
+            Split(Rd, usize, usize),
+            Done(R),
+            Failed,
+            Taken,
+        }
+
+        fn mix(h: u64, x: u64) -> u64 {
+            let mut z = (h ^ x).wrapping_add(0x9E37_79B9_7F4A_7C15);
+            z = (z ^ (z >> 30)).wrapping_mul(0xBF58_476D_1CE4_E5B9);
+            z ^ (z >> 27)
+        }
+
+        /// The simulator-owned variant of rayon's `bridge_unindexed`.
+        pub fn bridge_unindexed<P, C>(producer: P, consumer: C) -> C::Result
+        where
+            P: UnindexedProducer,
+            C: UnindexedConsumer<P::Item>,
+        {
+            if !crate::sim::enabled() {
+                return rayon_real::iter::plumbing::bridge_unindexed(producer, consumer);
+            }
+            let pool = crate::sim::pool();
+            crate::sim::note(|s| s.bridges += 1);
+            let mut nodes: Vec<Node<P, C, C::Result, C::Reducer>> = vec![Node::Pending(producer, consumer, 0, pool)];
+            let mut pending: Vec<usize> = vec![0];
+            let mut first_panic: Option<Box<dyn std::any::Any + Send>> = None;
+            let mut shape: u64 = 0;
+            while !pending.is_empty() {
+                // any pending subtree may run next: the choice models worker and steal order
+                let pick = crate::sim::decide(pending.len());
+                if pick + 1 != pending.len() {
+                    crate::sim::note(|s| s.out_of_order += 1);
+                }
+                let idx = pending.remove(pick);
+                let (p, c, depth, budget) = match std::mem::replace(&mut nodes[idx], Node::Taken) {
+                    Node::Pending(p, c, d, b) => (p, c, d, b),
+                    _ => unreachable!(),
+                };
+                shape = mix(shape, idx as u64);
+                if c.full() {
+                    // as rayon does: complete the consumer, the producer is dropped unconsumed
+                    crate::sim::note(|s| s.full_at_node += 1);
+                    let r = catch_unwind(AssertUnwindSafe(move || {
+                        let r = c.into_folder().complete();
+                        drop(p);
+                        r
+                    }));
+                    nodes[idx] = match r {
+                        Ok(v) => Node::Done(v),
+                        Err(e) => {
+                            first_panic.get_or_insert(e);
+                            Node::Failed
+                        }
+                    };
+                    continue;
+                }
+                let want_split = if pool == 0 { crate::sim::decide(3) != 0 } else { budget > 0 };
+                if want_split {
+                    match catch_unwind(AssertUnwindSafe(move || p.split())) {
+                        Ok((left, Some(right))) => {
+                            crate::sim::note(|s| {
+                                s.splits += 1;
+                                s.max_depth = s.max_depth.max(depth + 1);
+                            });
+                            shape = mix(shape, 0x5B11);
+                            let reducer = c.to_reducer();
+                            let left_consumer = c.split_off_left();
+                            // a "stolen" half gets a fresh budget, as rayon's adaptive splitter does
+                            let lb = budget / 2;
+                            let rb = if pool > 0 && crate::sim::decide(4) == 0 { pool } else { budget / 2 };
+                            let li = nodes.len();
+                            nodes.push(Node::Pending(left, left_consumer, depth + 1, lb));
+                            nodes.push(Node::Pending(right, c, depth + 1, rb));
+                            nodes[idx] = Node::Split(reducer, li, li + 1);
+                            pending.push(li + 1);
+                            pending.push(li);
+                            continue;
+                        }
+                        Ok((left, None)) => {
+                            run_leaf(&mut nodes, idx, left, c, &mut first_panic);
+                            shape = mix(shape, 0x1EAF);
+                            continue;
+                        }
+                        Err(e) => {
+                            first_panic.get_or_insert(e);
+                            nodes[idx] = Node::Failed;
+                            continue;
+                        }
+                    }
+                }
+                run_leaf(&mut nodes, idx, p, c, &mut first_panic);
+                shape = mix(shape, 0x1EAF);
+            }
+            crate::sim::note(|s| s.shape = mix(s.shape, shape));
+            if let Some(e) = first_panic {
+                drop(nodes);
+                resume_unwind(e);
+            }
+            reduce(&mut nodes, 0)
+        }
+
+        fn run_leaf<P, C>(nodes: &mut [Node<P, C, C::Result, C::Reducer>], idx: usize, p: P, c: C, first_panic: &mut Option<Box<dyn std::any::Any + Send>>)
+        where
+            P: UnindexedProducer,
+            C: UnindexedConsumer<P::Item>,
+        {
+            crate::sim::note(|s| s.leaves += 1);
+            let r = catch_unwind(AssertUnwindSafe(move || p.fold_with(c.into_folder()).complete()));
+            nodes[idx] = match r {
+                Ok(v) => Node::Done(v),
+                Err(e) => {
+                    crate::sim::note(|s| s.leaf_panics += 1);
+                    first_panic.get_or_insert(e);
+                    Node::Failed
+                }
+            };
+        }
+
+        fn reduce<P, C>(nodes: &mut Vec<Node<P, C, C::Result, C::Reducer>>, idx: usize) -> C::Result
+        where
+            P: UnindexedProducer,
+            C: UnindexedConsumer<P::Item>,
+        {
+            match std::mem::replace(&mut nodes[idx], Node::Taken) {
+                Node::Done(r) => r,
+                Node::Split(reducer, l, r) => {
+                    let lv = reduce(nodes, l);
+                    let rv = reduce(nodes, r);
+                    reducer.reduce(lv, rv)
+                }
+                _ => unreachable!("bridge node {idx} has no result"),
+            }
+        }
+    }
+}
